@@ -54,21 +54,72 @@ def alphabet(tier):
     return ev
 
 
+def s_scenarios():
+    """Deliveries *inside* commands: the agent acts at any scheduling point of the command."""
+    sel = [{"s": "A", "op": "select", "m": "INBOX"}, {"s": "B", "op": "select", "m": "INBOX"}]
+    env = [{"s": "env", "op": "deliver", "m": "INBOX", "unseen": True, "cids": ["dE1"]}]
+    base = {"cfg_ref": ["vf.props.c13", "scfg", []], "loopopts": {"preempt_timers": False}, "prelude": sel, "env": env}
+    out = []
+    for name, a in [
+        ("deliver-in-store", {"op": "store", "set": "1", "mode": "+", "flags": "\\Flagged kwz"}),
+        ("deliver-in-fetch-body", {"op": "fetch", "set": "1", "items": "(UID BODY[])"}),
+        ("deliver-in-append", {"op": "append", "m": "INBOX", "cid": "apE", "flags": "\\Seen"}),
+        ("deliver-in-copy-self", {"op": "copy", "set": "1", "dst": "INBOX"}),
+        ("deliver-in-expunge", {"op": "expunge"}),
+        ("deliver-in-noop", {"op": "noop"}),
+    ]:
+        pre = list(sel)
+        if name == "deliver-in-expunge":
+            pre = sel + [{"s": "A", "op": "store", "set": "2", "mode": "+", "flags": "\\Deleted"}, {"s": "B", "op": "noop"}]
+        out.append(dict(base, name=name, prelude=pre, concurrent={"A": [dict(a, s="A")], "B": [{"s": "B", "op": "noop"}]}))
+    return out
+
+
+def scfg():
+    from .common import cfg_basic
+
+    return cfg_basic(PROP, 2, others=("other",), name="c13-s")
+
+
 def run(tier, seed, jobs):
     from .hcommon import run_h
 
     plans = [{"cfg_ref": ("vf.props.c13", "cfg", [2]), "alphabet": alphabet(tier), "depth": 3 if tier == "quick" else 4, "label": "INBOX(2)"}]
     if tier != "quick":
         plans.append({"cfg_ref": ("vf.props.c13", "cfg", [0]), "alphabet": alphabet(tier), "depth": 3, "label": "INBOX(0)"})
-    return run_h(PROP, RULES, plans, ("C13", "C04"), jobs, seed,
+    res = run_h(PROP, RULES, plans, ("C13", "C04"), jobs, seed,
                  ["the delivery agent writes message max+1, optionally appends it to `unseen` preserving every other line, and always "
                   "advances the folder mtime (the premise of the property); a `tick` advances the mtime only",
                   "deliveries happen between commands in this check; deliveries *inside* commands are schedule events of the S engine",
                   "sessions: A selected (INBOX or other), B selecting/idling on INBOX"],
-                 time_budget=85 if tier == "quick" else 1500)
+                 time_budget=70 if tier == "quick" else 1500)
+    from ..explore import sched
+
+    per = []
+    for sc in s_scenarios():
+        r = sched.explore(sc, 2 if tier == "quick" else 3, jobs, seed, max_exec=30000 if tier == "quick" else 400000)
+        for f in r["failures"]:
+            f.rule = f.rule.replace("C10.", "C13.")
+        res.failures.extend(r["failures"])
+        res.coverage["states"] += r["executions"]
+        res.coverage["transitions"] += r["steps"]
+        res.coverage["traces_validated_against_impl"] += r["executions"]
+        per.append({"scenario": sc["name"], "executions": r["executions"], "bound": r["bound_completed"], "outcomes": r["distinct_outcomes"], "cap": r["cap"]})
+    res.coverage["schedule_part"] = per
+    res.assumptions.append("S part: one delivery (unseen) fired by the agent at any scheduling point of STORE / FETCH BODY[] / APPEND / COPY-to-self / EXPUNGE / NOOP "
+                           "with <=2 (thorough 3) deviations; final contents and flags must equal some sequential order of command and delivery")
+    return res
 
 
 def replay(rec):
+    rp = rec["replay"]
+    if rp.get("driver") == "s":
+        from ..explore import sched
+
+        _p, _n, _sig, fails, _st = sched.run_one((rp["scenario"], rp["choices"]))
+        for f in fails:
+            f.rule = f.rule.replace("C10.", "C13.")
+        return fails
     from .hcommon import replay_h
 
     return replay_h("C", rec)
